@@ -3,7 +3,7 @@
    action_obj.py, ApplyUndoActions.  Statements only; proofs in Proofs/ActionLog_proofs.v. *)
 From Coq Require Import ZArith List Bool.
 Import ListNotations.
-Require Import Grist.Model.ActionLog Grist.Proofs.ActionLog_proofs.
+Require Import Grist.Model.ActionLog Grist.Model.ActionLogEnc Grist.Proofs.ActionLog_proofs Grist.Proofs.ActionLog_calc.
 Open Scope Z_scope.
 
 (* The statement at full strength, for a class `wf_events` of event lists: replaying the undo list of a
@@ -25,6 +25,19 @@ Proof.
   intros O L s es s' out Hwf [acts [-> Hl]] H.
   exact (doc_bundle_undo_ok O L s acts Hwf Hl s' out H).
 Qed.
+
+(* Stages 1+2: the bundle is a sequence of doc actions followed by calc deltas (formula recalculation) and the
+   final flush -- the shape of an ordinary bundle.  `bundle_ok2 s es` is a computable check (the harness evaluates
+   it on every recorded trace): the start document is well formed and uses no name with the reserved '-'
+   prefix, the doc actions are lossless (as in stage 1), every calc delta names existing rows and its first
+   `before` for a row equals the current cell up to encoding (SC2).  SC1 holds by the shape (no doc action after
+   a calc delta).  The proof goes through the ActionSummary: LabelRenames and the presence maps identify exactly
+   the cells created in the bundle, for which no restore is emitted and none is needed (created_ok), and the
+   restores appended at the flush put back the value the doc actions left. *)
+Definition docs_then_calcs (O : ValOps) (s : state O) (es : list (event O)) : Prop := bundle_ok2 O s es = true.
+
+Theorem C01_undo_restores_docs_calcs_partial : forall O, ValLaws O -> C01_statement O (docs_then_calcs O).
+Proof. intros O L s es s' out _ Hok H. exact (bundle_ok2_undo O L s es s' out Hok H). Qed.
 
 (* Each doc action is undone by the undo actions it appended, except for the cells in `lossy` (restored by
    the engine through the calc summary, by recalculation, or by the conversion delta of doModifyColumn). *)
@@ -92,4 +105,150 @@ Proof.
   split; [apply lossless_runb_sound; vm_compute; reflexivity|].
   eexists. eexists. eexists. split; [vm_compute; reflexivity|].
   split; [reflexivity|]. split; [reflexivity|]. split; [vm_compute; reflexivity|]. cbn. discriminate.
+Qed.
+
+(* ------------------------------------------------------------------------------------------------ *)
+(* Stage 2 non-vacuity: add a formula column, add a record, update a record; then the recalculation of the new
+   column for the old rows (restored on undo) and for the new row (created in the bundle: no restore). *)
+
+(* what fetch_table shows of a document *)
+Definition view (O : ValOps) (s : state O) :=
+  map (fun T => (t_id O T, t_rows O T, map (fun C => (c_id O C, c_info O C, map (col_get O C) (t_rows O T))) (t_cols O T))) s.
+
+Definition nF : name := [70].
+Definition ciFormula : colinfo := mkCI nInt true [36; 65] None.
+
+Definition ex2_events : list (event ZOps) :=
+  [ Doc ZOps (AddColumn ZOps nT nF ciFormula);
+    Doc ZOps (BulkAddRecord ZOps nT [3] [(nA, [30])]);
+    Doc ZOps (BulkUpdateRecord ZOps nT [1] [(nA, [11])]);
+    Calc ZOps nT nF [(1, (0, 11)); (2, (0, 20)); (3, (0, 30))];
+    Calc ZOps nT nF [(1, (11, 12))] ].
+
+Example C01_docs_calcs_nonvacuous :
+  bundle_ok2 ZOps ex_state ex2_events = true /\
+  exists s' out s'', run ZOps ex_state ex2_events = Ok (s', out) /\
+                 o_undo ZOps out = [RemoveColumn ZOps nT nF; BulkRemoveRecord ZOps nT [3];
+                                    BulkUpdateRecord ZOps nT [1] [(nA, [10])]] /\
+                 replay_doc ZOps (rev (o_undo ZOps out)) s' = Ok s'' /\ view ZOps s'' = view ZOps ex_state.
+Proof.
+  split; [vm_compute; reflexivity|]. eexists. eexists. eexists.
+  split; [vm_compute; reflexivity|]. split; [reflexivity|]. split; vm_compute; reflexivity.
+Qed.
+
+(* An existing formula column recalculated after an update: its restore is appended at the flush. *)
+Definition ex3_state : state ZOps :=
+  [mkTab ZOps nT [1; 2] [mkCol ZOps nA ciData [(1, 10); (2, 20)]; mkCol ZOps nF ciFormula [(1, 10); (2, 20)]]].
+
+Definition ex3_events : list (event ZOps) :=
+  [ Doc ZOps (BulkUpdateRecord ZOps nT [1] [(nA, [11])]); Calc ZOps nT nF [(1, (10, 11))] ].
+
+Example C01_docs_calcs_restore :
+  bundle_ok2 ZOps ex3_state ex3_events = true /\
+  exists s' out, run ZOps ex3_state ex3_events = Ok (s', out) /\
+                 o_undo ZOps out = [BulkUpdateRecord ZOps nT [1] [(nA, [10])]; BulkUpdateRecord ZOps nT [1] [(nF, [10])]] /\
+                 o_stored ZOps out = [BulkUpdateRecord ZOps nT [1] [(nA, [11])]; BulkUpdateRecord ZOps nT [1] [(nF, [11])]].
+Proof. split; [vm_compute; reflexivity|]. eexists. eexists. split; [vm_compute; reflexivity|]. split; reflexivity. Qed.
+
+(* Stage 3 shape (renames and removals between a calc delta and the flush) is NOT covered by a theorem; this
+   concrete bundle -- AddColumn, Calc, RenameColumn, RemoveColumn, RemoveTable -- shows what the model does with
+   it: the delta follows the column through the rename, becomes defunct with the removals, is dropped because the
+   column was created in the bundle, and the undo list restores the start document. *)
+Definition ex4_events : list (event ZOps) :=
+  [ Doc ZOps (AddColumn ZOps nT nF ciFormula);
+    Calc ZOps nT nF [(1, (0, 10)); (2, (0, 20))];
+    Doc ZOps (RenameColumn ZOps nT nF [71]);
+    Calc ZOps nT nB [(2, (0, 7))];
+    Doc ZOps (RemoveColumn ZOps nT [71]);
+    Doc ZOps (RenameTable ZOps nT [85]);
+    Doc ZOps (RemoveTable ZOps [85]) ].
+
+Example C01_stage3_example :
+  exists s' out s'', run ZOps ex_state ex4_events = Ok (s', out) /\ s' = [] /\
+                 replay_doc ZOps (rev (o_undo ZOps out)) s' = Ok s'' /\
+                 (forall t, t = nT -> exists T, find_table ZOps s'' t = Some T /\ t_rows ZOps T = [1; 2] /\
+                     map (fun C => map (col_get ZOps C) [1; 2]) (t_cols ZOps T) = [[10; 20]; [5; 0]]).
+Proof.
+  eexists. eexists. eexists. split; [vm_compute; reflexivity|]. split; [reflexivity|].
+  split; [vm_compute; reflexivity|]. intros t ->. eexists. split; [vm_compute; reflexivity|]. split; reflexivity.
+Qed.
+
+(* ------------------------------------------------------------------------------------------------ *)
+(* The full statement (any interleaving of doc actions, calc deltas and flushes, with SC1 and SC2) is FALSE of
+   the faithful model.  Three witnesses, each replayed on the running engine by the check (known findings). *)
+
+(* R1: a row added in the bundle gets a calc delta, then its table is removed.  _changes_to_actions looks the
+   presence maps up under the root table name, but they were moved to the defunct key: the front-inserted
+   restore names the new row, and the undo replay fails (docactions asserts the row exists). *)
+Definition r1_events : list (event ZOps) :=
+  [ Doc ZOps (BulkAddRecord ZOps nT [3] [(nA, [7])]);
+    Calc ZOps nT nF [(3, (0, 7))];
+    Doc ZOps (RemoveTable ZOps nT) ].
+
+Theorem C01_refuted_removed_table_new_row :
+  exists s es s' out, wf_state ZOps s /\ run ZOps s es = Ok (s', out) /\
+                      replay_doc ZOps (rev (o_undo ZOps out)) s' = Err E_no_row.
+Proof.
+  exists ex3_state, r1_events. eexists. eexists.
+  split; [apply (wf_stateb_sound ZOps); vm_compute; reflexivity|].
+  split; vm_compute; reflexivity.
+Qed.
+
+(* R3: a cell written by a doc action of the bundle gets a calc delta (its `before` is the value just written),
+   then its row is removed.  The restore is inserted at the FRONT of the undo list, so it is replayed last,
+   after the undo of the write: the cell ends at the written value 5, not at its original 10. *)
+Definition r3_events : list (event ZOps) :=
+  [ Doc ZOps (BulkUpdateRecord ZOps nT [1] [(nA, [5])]);
+    Calc ZOps nT nA [(1, (5, 1050))];
+    Doc ZOps (BulkRemoveRecord ZOps nT [1]) ].
+
+Theorem C01_refuted_front_restore_written_cell :
+  exists s es s' out s'' T C, wf_state ZOps s /\ run ZOps s es = Ok (s', out) /\
+    replay_doc ZOps (rev (o_undo ZOps out)) s' = Ok s'' /\
+    find_table ZOps s'' nT = Some T /\ find_col ZOps (t_cols ZOps T) nA = Some C /\
+    col_get ZOps C 1 = 5 /\ ~ seq ZOps s'' s.
+Proof.
+  exists ex3_state, r3_events. eexists. eexists. eexists. eexists. eexists.
+  split; [apply (wf_stateb_sound ZOps); vm_compute; reflexivity|].
+  split; [vm_compute; reflexivity|]. split; [vm_compute; reflexivity|].
+  split; [vm_compute; reflexivity|]. split; [vm_compute; reflexivity|]. split; [reflexivity|].
+  intro H. specialize (H nT). cbn in H. destruct H as [_ H]. specialize (H nA). cbn in H.
+  destruct H as [_ H]. destruct (H 1 (or_introl eq_refl)) as [[]|H1]. vm_compute in H1. discriminate.
+Qed.
+
+Lemma seq_cell : forall O s1 s2 t c r T1 C1 T2 C2,
+  seq O s1 s2 -> find_table O s1 t = Some T1 -> find_col O (t_cols O T1) c = Some C1 ->
+  find_table O s2 t = Some T2 -> find_col O (t_cols O T2) c = Some C2 -> In r (t_rows O T1) ->
+  venc O (col_get O C1 r) (col_get O C2 r) = true.
+Proof.
+  intros O s1 s2 t c r T1 C1 T2 C2 H H1 H2 H3 H4 Hr. specialize (H t). rewrite H1, H3 in H. destruct H as [_ H].
+  specialize (H c). rewrite H2, H4 in H. destruct H as [_ H]. destruct (H r Hr) as [[]|H5]. exact H5.
+Qed.
+
+(* R2: ModifyColumn turns a data column into a formula column and changes its type (Int -> Bool, cell 1).
+   doModifyColumn leaves the conversion delta pending, so its restore is appended AFTER the ModifyColumn undo and
+   replayed BEFORE it: the old value is written while the column still has the new type (1 becomes true). *)
+Definition nBool : name := [66; 111; 111; 108].
+Definition r2_types : typetable := [(nInt, (EInt 0, 0)); (nBool, (EBool false, 1))].
+Definition r2_state : state (EOps r2_types) :=
+  [mkTab (EOps r2_types) nT [1] [mkCol (EOps r2_types) nA ciData [(1, EInt 1)]]].
+Definition r2_events : list (event (EOps r2_types)) :=
+  [ Doc (EOps r2_types) (ModifyColumn (EOps r2_types) nT nA (mkMI (Some nBool) (Some true) (Some [36; 105; 100]) None));
+    Calc (EOps r2_types) nT nA [(1, (EInt 1, EBool true))];
+    Calc (EOps r2_types) nT nA [(1, (EBool true, EBool false))] ].
+
+Theorem C01_refuted_to_formula_type_change :
+  exists s es s' out s'' T C, wf_state (EOps r2_types) s /\ run (EOps r2_types) s es = Ok (s', out) /\
+    replay_doc (EOps r2_types) (rev (o_undo (EOps r2_types) out)) s' = Ok s'' /\
+    find_table (EOps r2_types) s'' nT = Some T /\ find_col (EOps r2_types) (t_cols (EOps r2_types) T) nA = Some C /\
+    col_get (EOps r2_types) C 1 = EBool true /\ c_info (EOps r2_types) C = ciData /\ ~ seq (EOps r2_types) s'' s.
+Proof.
+  exists r2_state, r2_events. eexists. eexists. eexists. eexists. eexists.
+  split; [apply (wf_stateb_sound (EOps r2_types)); vm_compute; reflexivity|].
+  split; [vm_compute; reflexivity|]. split; [vm_compute; reflexivity|].
+  split; [vm_compute; reflexivity|]. split; [vm_compute; reflexivity|]. split; [reflexivity|]. split; [reflexivity|].
+  intro H.
+  eapply (seq_cell (EOps r2_types) _ _ nT nA 1) in H;
+    [ | vm_compute; reflexivity | vm_compute; reflexivity | vm_compute; reflexivity | vm_compute; reflexivity | left; reflexivity].
+  vm_compute in H. discriminate.
 Qed.
